@@ -62,7 +62,7 @@ def strategy_case(draw):
         e = draw(st.sampled_from(["zero", "tiny", "log", "log", "log"]))
         case["eps"] = 0.0 if e == "zero" else (1e-14 if e == "tiny" else 10 ** draw(st.floats(-10, math.log10(0.5))))
     case["scramble"] = draw(st.sampled_from([0, 0, 1, 1e2, 1e4, 1e6]))
-    case["scale_exp"] = draw(st.sampled_from([0, 0, 0, -6, -3, 3, 6, -20, 20]))
+    case["scale_exp"] = draw(st.sampled_from([0, 0, 0, -6, -3, 3, 6, -20, 20, -170, 170]))
     case["scale_core"] = draw(st.integers(0, 6))
     case["rescale"] = draw(st.booleans())
     rk = draw(st.sampled_from(["default", "default", "int", "list"]))
@@ -202,7 +202,10 @@ def build(case):
             cores[k + 1] = cores[k + 1] * 1e-3
     if case.get("scale_exp", 0):
         k = case["scale_core"] % d
-        e = case["scale_exp"] if not (abs(case["scale_exp"]) == 20 and dt in ("f32", "c64")) else case["scale_exp"] // 5
+        e = case["scale_exp"]
+        if abs(e) >= 20 and dt in ("f32", "c64"):      # float32 range: 10^+-20 -> 10^+-4, 10^+-170 -> 10^+-25
+            # (with a gauge of condition >= 1e4 on top, 10^+-25 would push intermediate core products out of the float32 range)
+            e = (4 if (abs(e) == 20 or case.get("scramble", 0) >= 1e4 or case.get("rescale")) else 25) * (1 if e > 0 else -1)
         cores[k] = cores[k] * (10.0 ** e)
     cores = [c.to(DT[dt]).contiguous() for c in cores]
     return cores, ub, eps
